@@ -32,6 +32,16 @@ package pubsub
 //@   noframe
 //@   loop 1 invariant counters: nVal() == 0 && nOnValid() == 0 && nMark() == 1 && lastret((*PubSub).markSeen) && nRej() == 0 && nIgn() == 0 && nRejTrace() == 0
 //@   loop 1 invariant sync: synchronous ==> len(async) == 0
+//@   loop 1 invariant own-lists: (inline == nil || fresh(inline)) && (async == nil || fresh(async)) && (inline == nil || async == nil || arr(inline) != arr(async))
+//@   loop 1 invariant partition-complete: len(inline) + len(async) == rangeindex + 1 && rangeindex + 1 <= len(vals) &&
+//@        (forall j int :: 0 <= j && j <= rangeindex ==> (exists i int :: 0 <= i && i < len(inline) && inline[i] == vals[j]) || (exists i int :: 0 <= i && i < len(async) && async[i] == vals[j]))
+//@   loop 2 invariant consulted-in-order: (nRej() == 0 ==> nVal() == rangeindex + 1) && len(inline) + len(async) == len(vals) && rangeindex + 1 <= len(inline)
+//@   at call validateMsg assert the-next-inline-validator: $arg0 == inline[rangeindex] && $arg2 == src && $arg3 == msg
+//@   ensures every-validator-consulted-or-handed-over: nMark() == 1 && lastret((*PubSub).markSeen) && nRej() == 0 ==> nVal() == len(inline) && len(inline) + len(async) == len(vals) &&
+//@        (forall j int :: 0 <= j && j < len(vals) ==> (exists i int :: 0 <= i && i < len(inline) && inline[i] == vals[j]) || (exists i int :: 0 <= i && i < len(async) && async[i] == vals[j]))
+//@   ensures async-handed-over-or-throttled: nMark() == 1 && lastret((*PubSub).markSeen) && nRej() == 0 && len(async) > 0 ==>
+//@        calls(go:(*validation).validate$1) - old(calls(go:(*validation).validate$1)) + nRejTrace() == 1 &&
+//@        (nRejTrace() == 1 ==> lastarg((*pubsubTracer).RejectMessage, 2) == RejectValidationThrottled)
 //@   loop 2 invariant counters: nOnValid() == 0 && nMark() == 1 && lastret((*PubSub).markSeen) && nRej() == 0 && nRejTrace() == 0
 //@   loop 2 invariant verdict: (result == ValidationIgnore) == (nIgn() > 0) && (result == ValidationAccept || result == ValidationIgnore)
 //@   loop 2 invariant sync: synchronous ==> len(async) == 0
@@ -54,6 +64,16 @@ package pubsub
 //@        nOnValid() == 1 && lastarg(dyn:onValid, 0) == msg && result == lastret(dyn:onValid) && nRejTrace() == 0
 //@   ensures onvalid-only-accept: nOnValid() > 0 ==> nRej() == 0 && nIgn() == 0 && len(async) == 0 && nOnValid() == 1
 //@   ensures throttled: nMark() == 1 && lastret((*PubSub).markSeen) && nRej() == 0 && len(async) > 0 ==> nOnValid() == 0 && result == nil
+
+// validate$1: the goroutine that runs the asynchronous validators: exactly one doValidateTopic
+// over exactly the validators, source, message, inline verdict and continuation that validate
+// had when it spawned it.
+//@ func (*validation).validate$1
+//@   property C04
+//@   requires state: v != nil && v.p != nil && v.p.logger != nil && msg != nil && (result == ValidationAccept || result == ValidationIgnore)
+//@   noframe
+//@   ensures runs-the-async-validators: calls((*validation).doValidateTopic) == old(calls((*validation).doValidateTopic)) + 1
+//@   at call doValidateTopic assert with-what-validate-decided: $arg1 == async && $arg2 == src && $arg3 == msg && $arg4 == result
 
 //@ spec fn rcv(x int) int = countrecv(x) - old(countrecv(x))
 
@@ -126,6 +146,7 @@ package pubsub
 //@ func (*validation).getValidators
 //@   property C04
 //@   requires msg: msg != nil
+//@   modifies monitor(validation.mx)
 //@   ensures defaults-first: len(result) == len(v.defaultVals) + ite(topicOf(msg) in v.topicVals, 1, 0) &&
 //@        (forall i int :: 0 <= i && i < len(v.defaultVals) ==> result[i] == v.defaultVals[i])
 //@   ensures own-topic-validator: topicOf(msg) in v.topicVals ==> result[len(v.defaultVals)] == v.topicVals[topicOf(msg)]
@@ -151,13 +172,45 @@ package pubsub
 //@   noframe
 //@   ensures answered-once: sent(req.resp) == old(sent(req.resp)) + 1
 //@   ensures error-or-nil-reported: lastret((*validation).makeValidator, 1) != nil ==> lastsent(req.resp) == lastret((*validation).makeValidator, 1)
-// (that an existing validator is never replaced is not stated here: makeValidator takes
-// user-supplied function values and its effect on the table cannot be bounded by the analysis)
+//@   ensures bad-validator-changes-nothing: lastret((*validation).makeValidator, 1) != nil ==>
+//@        (forall t string :: (t in v.topicVals) == lin(t in v.topicVals) && v.topicVals[t] == lin(v.topicVals[t]))
+//@   ensures registered: lastret((*validation).makeValidator, 1) == nil && !lin(req.topic in v.topicVals) ==>
+//@        old(req.topic) in v.topicVals && v.topicVals[old(req.topic)] == lastret((*validation).makeValidator, 0) && lastsent(req.resp) == nil
+//@   ensures duplicate-refused: lastret((*validation).makeValidator, 1) == nil && lin(req.topic in v.topicVals) ==>
+//@        v.topicVals[old(req.topic)] == lin(v.topicVals[req.topic]) && old(req.topic) in v.topicVals && lastsent(req.resp) != nil
+//@   ensures others: forall t string :: t != old(req.topic) ==> (t in v.topicVals) == lin(t in v.topicVals) && v.topicVals[t] == lin(v.topicVals[t])
+
+// makeValidator wraps the user's function (either signature) into a validatorImpl for the
+// requested topic with the requested inline flag; it touches nothing else.
+//@ func (*validation).makeValidator
+//@   property C04
+//@   requires req: req != nil
+//@   modifies nothing
+//@   ensures built-for-topic: result1 == nil ==> result0 != nil && fresh(result0) && result0.topic == req.topic && result0.validateInline == req.inline &&
+//@        result0.validateThrottle != nil
+//@   ensures error-no-validator: result1 != nil ==> result0 == nil
+//@   ensures timeout-as-requested: result1 == nil ==> result0.validateTimeout == ite(req.timeout > 0, req.timeout, 0)
+//@   ensures extended-validator-kept: result1 == nil && typeis(req.validate, ValidatorEx) ==> result0.validate == unbox(req.validate, ValidatorEx)
+//@   ensures boolean-validator-wrapped: result1 == nil && typeis(req.validate, Validator) ==> result0.validate != nil
 
 //@ func (*validation).RemoveValidator
 //@   property C04 C14
 //@   requires req: req != nil && v.topicVals != nil
 //@   noframe
 //@   ensures answered-once: sent(req.resp) == old(sent(req.resp)) + 1
-//@   ensures removed: !(old(req.topic) in v.topicVals) && (old(req.topic in v.topicVals) == (lastsent(req.resp) == nil))
-//@   ensures others: forall t string :: t != old(req.topic) ==> (t in v.topicVals) == old(t in v.topicVals) && v.topicVals[t] == old(v.topicVals[t])
+//@   ensures removed: !(old(req.topic) in v.topicVals) && (lin(req.topic in v.topicVals) == (lastsent(req.resp) == nil))
+//@   ensures others: forall t string :: t != old(req.topic) ==> (t in v.topicVals) == lin(t in v.topicVals) && v.topicVals[t] == lin(v.topicVals[t])
+
+// The validator table is shared between the event loop (registration) and the goroutines that
+// publish or validate: every access is under v.mx.
+//@ monitor validation.mx
+//@   protects map(topicVals)
+
+// The adapter around a boolean validator: true is Accept, false is Reject, and the user's
+// function is asked exactly once with the arguments the adapter was given.
+//@ func (*validation).makeValidator$1$1
+//@   property C04
+//@   dynpure v
+//@   noframe
+//@   ensures bool-to-verdict: calls(dyn:v) == old(calls(dyn:v)) + 1 && result == ite(lastret(dyn:v), ValidationAccept, ValidationReject)
+//@   ensures same-arguments: lastarg(dyn:v, 1) == p && lastarg(dyn:v, 2) == msg
